@@ -157,6 +157,23 @@ def _run(ctx):
         okc = any(g.startswith("has_object(") and tr is False for g, tr in gs)
     ctx.ob("R-ORDER", "copy-on-write-only-when-absent", okc, "set_object is dominated by !new_document.has_object(id)", oc.where(),
            what="opt_clone_object_to_new_document copies the old object even when the update already holds a (newer) object under that id")
+    # ... and that is the only door: no other method of IncrementalDocument stores into new_document an object it took from
+    # prev_documents (a copy made anywhere else has no `has_object` test in front of it and overwrites what the update holds)
+    import inv as _inv
+    doors = []
+    for p_, bb in sorted(F.bodies.items()):
+        if not bb.self_ty.endswith("IncrementalDocument") or bb is oc or bb.path.startswith(oc.path):
+            continue
+        for c in bb.calls:
+            if not (c.local and re.search(r"Document::(set_object|add_object)$", c.cname) and "new_document" in bb.oname(c.args[0], 3)):
+                continue
+            val = bb.sname(c.args[-1], 8)
+            if "prev_documents" in val:
+                gs = _inv.rendered_guards(bb, c.bb)
+                if not any(g.startswith("has_object(") and tr is False for g, tr in gs):
+                    doors.append("%s (line %d)" % (F.canon_of(bb), c.ln))
+    ctx.ob("R-WHO", "copy-on-write-single-door", not doors, "objects are copied from the previous revisions into the update by opt_clone_object_to_new_document only", oc.where(),
+           what="%s copies an object from prev_documents into new_document without asking whether the update already holds one: the copy from the old revision overwrites the newer in-memory object (the last edit does not win)" % doors)
 
 
 def run(ctx):
